@@ -460,6 +460,11 @@ def zone_menu():
           ('gettz-UTCfile', tz.gettz('UTC')), ('tzlocal', tz.tzlocal())]
     with open('/usr/share/zoneinfo/Europe/Dublin', 'rb') as f:
         zs.append(('tzfile-stream-Dublin', tz.tzfile(f)))
+    # tzlocal objects built under other TZ settings (offsets are fixed at construction): only their equality relation
+    # with the other zones is examined here, not copies (a copy re-reads the environment)
+    for env in ('UTC+3', 'GMT-2', 'UTC0', 'EST5', 'UTC-5:30'):
+        with pm.tz_env(env):
+            zs.append(('tzlocal@' + env, tz.tzlocal()))
     # same transition instants and the same type table, the types taken in opposite phase / from another table
     from refs import tzif_ref
     T = [int((D.datetime(2024, m, 1) - D.datetime(1970, 1, 1)).total_seconds()) for m in (2, 5, 9, 12)]
@@ -498,7 +503,7 @@ def eval_values(case):
             # the statement promises equal *offsets* (tzutc == tzoffset(None, 0) although their names differ)
             viols.append({'kind': 'equal-zones-report-different-offsets', 'zones': [na, nb]})
     for name, z in zs:
-        if name == 'tzical':
+        if name == 'tzical' or name.startswith('tzlocal@'):
             continue            # VTIMEZONE zones define no copy/pickle support (object.__reduce__) and the statement's list is the factories' zones
         for cname, f in [('copy', copy.copy), ('deepcopy', copy.deepcopy)] + \
                         [('pickle%d' % p, (lambda p: lambda z: pickle.loads(pickle.dumps(z, p)))(p)) for p in (2, 3, 4, 5)]:
